@@ -118,6 +118,16 @@ def expression(rng, depth=0, top=True, angle_ops=False):
     if depth > 3 or k < 0.22:
         return [rng.choice(ATOMS)]
     sub = lambda **kw: expression(rng, depth + 1, **kw)
+    if rng.random() < 0.05:
+        # an operator function named but not necessarily called: `&S::operator==`, `x.operator+(y)`, `&S::operator()`
+        op = rng.choice([["=", "="], ["+"], ["("], ["["], ["->"], ["new"], ["!", "="], ["*"], ["delete"], ["&&"], ["+", "="]])  # lexer tokens
+        op = op + {"(": [")"], "[": ["]"]}.get(op[0], [])
+        r = rng.random()
+        if r < 0.5:
+            return ["&", rng.choice(["S", "T"]), "::", "operator"] + op
+        if r < 0.8:
+            return [rng.choice(["a", "b"]), ".", "operator"] + op + ["("] + sub(top=False) + [")"]
+        return ["&", "ns", "::", "S", "::", "operator"] + op
     if k < 0.38:
         return sub(top=top, angle_ops=angle_ops) + [rng.choice(BINOPS)] + sub(top=top, angle_ops=angle_ops)
     if k < 0.5:
